@@ -497,6 +497,13 @@ func callSSA(i *interpreter, caller *frame, callpos token.Pos, fn *ssa.Function,
 			panic("unsupported: no code for function: " + name)
 		}
 	}
+	if i.ex != nil && len(i.ex.stubs) > 0 {
+		if st, ok := i.ex.stubs[fn.String()]; ok && !i.ex.inStub[fn.String()] {
+			i.ex.inStub[fn.String()] = true
+			defer func() { i.ex.inStub[fn.String()] = false }()
+			return call(i, caller, callpos, st, args)
+		}
+	}
 	if i.ex != nil && i.ex.wantSummary(fn) {
 		return i.ex.summarize(i, caller, callpos, fn, args, env)
 	}
